@@ -1088,10 +1088,30 @@ func (e *loadError) Error() string { return "load " + e.name + ": " + e.err.Erro
 // Unwrap returns the Loader's error.
 func (e *loadError) Unwrap() error { return e.err }
 
+// namesTemplate reports whether msg mentions the template name as a word of
+// its own: "permission denied" does not name the template "e".
+func namesTemplate(msg, name string) bool {
+	word := func(c byte) bool {
+		return c == '_' || c >= 0x80 || '0' <= c && c <= '9' || 'a' <= c && c <= 'z' || 'A' <= c && c <= 'Z'
+	}
+	for i := 0; name != "" && i+len(name) <= len(msg); i++ {
+		j := strings.Index(msg[i:], name)
+		if j < 0 {
+			return false
+		}
+		i += j
+		end := i + len(name)
+		if !(i > 0 && word(msg[i-1]) && word(name[0])) && !(end < len(msg) && word(msg[end]) && word(name[len(name)-1])) {
+			return true
+		}
+	}
+	return false
+}
+
 func (env *Env) load(name string) (*parse.Tree, error) {
 	tpl, err := env.Loader.Load(name)
 	if err != nil {
-		if !strings.Contains(err.Error(), name) {
+		if !namesTemplate(err.Error(), name) {
 			// A loader's own error ("permission denied") need not say which
 			// template was asked for; among includes and parents that is
 			// what one needs to know.
